@@ -105,6 +105,9 @@ func solveOne(o *Obligation, prelude string, opts SolveOpts) *SolveResult {
 }
 
 func solveOneLevel(o *Obligation, prelude string, opts SolveOpts, suffix string) *SolveResult {
+	if o.TimeoutS > opts.TimeoutS {
+		opts.TimeoutS = o.TimeoutS
+	}
 	text := o.SMT(prelude, true)
 	name := identSan.ReplaceAllString(o.ID, "_")
 	if len(name) > 180 {
